@@ -1,24 +1,22 @@
 (* ====================================================================== *)
 (*  Spectral_KyFan.v — Ky Fan's trace inequality over an ordered field     *)
 (*                                                                         *)
-(*  This is the classical bridge from "eigenvectors of the d extreme       *)
-(*  eigenvalues" to "optimal": for a symmetric M with a FULL orthonormal   *)
-(*  eigendecomposition  M = V diag(lam) V^T  (V^T V = V V^T = I) and any   *)
-(*  n x d matrix Y with orthonormal columns (Y^T Y = I_d),                 *)
-(*     tr(Y^T M Y) >= sum of the d smallest eigenvalues     (ky_fan_min)   *)
-(*     tr(Y^T M Y) <= sum of the d largest  eigenvalues     (ky_fan_max)   *)
-(*  with equality for Y = the corresponding columns of V (ky_fan_attained).*)
-(*  Used to upgrade the `_partial` optimality clauses of C05/C06/C08/C09/  *)
-(*  C10: what remains assumed there is only the eigen-solver oracle        *)
-(*  contract (that the returned pairs are part of such a decomposition).   *)
-(*                                                                         *)
-(*  Everything is proved for every n, d and every ordered field; the       *)
-(*  closed instances at Qc are at the end of the file.  Axiom free.        *)
+(*  The classical bridge from 'eigenvectors of the d extreme eigenvalues'  *)
+(*  to 'optimal'.  For a symmetric M with a FULL orthonormal               *)
+(*  eigendecomposition (V^T V = V V^T = I, M V = V diag lam, lam ascending)*)
+(*  and ANY n x d matrix Q with orthonormal columns (Q^T Q = I_d):         *)
+(*     sum of the d smallest lam <= tr(Q^T M Q) <= sum of the d largest    *)
+(*  (ky_fan_min, ky_fan_max) with equality for the corresponding columns   *)
+(*  of V (ky_fan_attained).                                                *)
+(*  Proof: tr(Q^T M Q) = sum_t lam_t w_t with w_t = |Q^T v_t|^2,           *)
+(*  0 <= w_t <= 1 (Bessel), sum_t w_t = d, then the elementary weighted-   *)
+(*  sum inequality.  Every n, d, every ordered field; instance Qc at the   *)
+(*  end.  Axiom free.                                                      *)
 (* ====================================================================== *)
-From Coq Require Import Field Ring Arith Lia List Bool QArith Qcanon.
-From TK Require Import Mat_Sums Mat_Core Mat_Qc.
+From Coq Require Import Field Ring Arith Lia List Bool.
+From TK Require Import Mat_Sums Mat_Core.
 
-Class OrderedField (F : Type) {Fo : FieldOps F} {Ff : IsField F} := {
+Class OrderedField (F : Type) {Fo : FieldOps F} := {
   fle : F -> F -> Prop;
   fle_refl : forall x, fle x x;
   fle_trans : forall x y z, fle x y -> fle y z -> fle x z;
@@ -30,65 +28,66 @@ Class OrderedField (F : Type) {Fo : FieldOps F} {Ff : IsField F} := {
 Section KyFan.
   Context {F : Type} {Fo : FieldOps F} {Ff : IsField F} {Fle : OrderedField F}.
   Add Field KyFanField : (@Fth F Fo Ff).
+  Local Open Scope nat_scope.
   Local Open Scope F_scope.
-  Infix "<=" := fle : F_scope.
+  Notation "x <== y" := (fle x y) (at level 70, no associativity).
 
   (* ---------------- order basics ---------------- *)
-  Lemma fle_eq x y : x = y -> x <= y.
+  Lemma fle_eq x y : x = y -> x <== y.
   Proof. intros ->. apply fle_refl. Qed.
 
-  Lemma fle_sub_nonneg x y : x <= y -> 0 <= y - x.
+  Lemma fle_sub_nonneg x y : x <== y -> 0 <== y - x.
   Proof.
     intros H. apply (fle_add_r _ _ (- x)) in H.
     replace (x + - x) with 0 in H by ring. replace (y + - x) with (y - x) in H by ring. exact H.
   Qed.
 
-  Lemma fle_of_sub_nonneg x y : 0 <= y - x -> x <= y.
+  Lemma fle_of_sub_nonneg x y : 0 <== y - x -> x <== y.
   Proof.
     intros H. apply (fle_add_r _ _ x) in H.
     replace (0 + x) with x in H by ring. replace (y - x + x) with y in H by ring. exact H.
   Qed.
 
-  Lemma fle_add_nonneg x y : 0 <= x -> 0 <= y -> 0 <= x + y.
+  Lemma fle_add_nonneg x y : 0 <== x -> 0 <== y -> 0 <== x + y.
   Proof.
     intros Hx Hy. apply fle_trans with y; [exact Hy|].
     apply (fle_add_r _ _ y) in Hx. replace (0 + y) with y in Hx by ring. exact Hx.
   Qed.
 
-  Lemma sumn_nonneg n f : (forall i, i < n -> 0 <= f i) -> 0 <= sumn n f.
+  Lemma sumn_nonneg n (f : nat -> F) : (forall i, (i < n)%nat -> 0 <== f i) -> 0 <== sumn n f.
   Proof.
     induction n as [|n IH]; intros H; cbn [sumn]; [apply fle_refl|].
     apply fle_add_nonneg; [apply IH; intros; apply H; lia | apply H; lia].
   Qed.
 
-  Lemma fle_mul_nonpos x y : x <= 0 -> y <= 0 -> 0 <= x * y.
+  Lemma fle_mul_nonpos x y : x <== 0 -> y <== 0 -> 0 <== x * y.
   Proof.
     intros Hx Hy. apply fle_sub_nonneg in Hx. apply fle_sub_nonneg in Hy.
     replace (x * y) with ((0 - x) * (0 - y)) by ring. apply fle_mul_nonneg; assumption.
   Qed.
 
   (* ---------------- the weighted-sum lemma ---------------- *)
-  (* lam is split by a pivot p: lam t <= p for t < d, p <= lam t for d <= t < n;
-     weights in [0,1] summing to d.  Then the weighted sum dominates the sum of
-     the first d values. *)
+  (* lam split by a pivot p: lam t <= p for t < d, p <= lam t for d <= t < n; weights in [0,1]
+     summing to d.  Then the weighted sum dominates the sum of the first d values. *)
   Lemma weighted_sum_lower n d (lam w : nat -> F) (p : F) :
-    d <= n ->
-    (forall t, t < d -> lam t <= p) ->
-    (forall t, d <= t -> t < n -> p <= lam t) ->
-    (forall t, t < n -> 0 <= w t) ->
-    (forall t, t < n -> w t <= 1) ->
+    (d <= n)%nat ->
+    (forall t, (t < d)%nat -> lam t <== p) ->
+    (forall t, (d <= t)%nat -> (t < n)%nat -> p <== lam t) ->
+    (forall t, (t < n)%nat -> 0 <== w t) ->
+    (forall t, (t < n)%nat -> w t <== 1) ->
     sumn n w = of_nat d ->
-    sumn d lam <= sumn n (fun t => lam t * w t).
+    sumn d lam <== sumn n (fun t => lam t * w t).
   Proof.
     intros Hd Hlo Hhi Hw0 Hw1 Hsum.
     apply fle_of_sub_nonneg.
-    set (ind := fun t : nat => if Nat.ltb t d then 1 else 0).
+    set (ind := fun t : nat => if Nat.ltb t d then (1 : F) else 0).
     assert (E : sumn n (fun t => lam t * w t) - sumn d lam
                 = sumn n (fun t => (lam t - p) * (w t - ind t))).
     { rewrite <- (sumn_if_lt n d lam Hd).
       assert (Hind : sumn n ind = of_nat d).
       { unfold ind. rewrite (sumn_if_lt n d (fun _ => 1) Hd). rewrite sumn_const. ring. }
-      transitivity (sumn n (fun t => lam t * w t) - sumn n (fun t => if Nat.ltb t d then lam t else 0)
+      transitivity (sumn n (fun t => lam t * w t)
+                    - sumn n (fun t => if Nat.ltb t d then lam t else 0)
                     - p * (sumn n w - sumn n ind)).
       { rewrite Hsum, Hind. ring. }
       rewrite <- sumn_sub, <- sumn_sub, <- sumn_mul_l, <- sumn_sub.
@@ -105,47 +104,261 @@ Section KyFan.
       + replace (w t - 0) with (w t) by ring. apply Hw0. exact Ht.
   Qed.
 
-  (* ---------------- trace of Y^T M Y through the eigenbasis ---------------- *)
-  Definition trace (d : nat) (A : mat) : F := sumn d (fun c => A c c).
-
-  (* Y is n x d (Y i c), V is n x n with columns the eigenvectors *)
-  Definition quad (n d : nat) (M Y : mat) : F :=
-    sumn d (fun c => sumn n (fun i => sumn n (fun j => Y i c * M i j * Y j c))).
-
-  Lemma quad_is_trace n d M Y :
-    quad n d M Y = trace d (mmul n (mmul n (mtrans Y) M) Y).
+  (* the mirror image: the weighted sum is dominated by the sum of the LAST d values *)
+  Lemma weighted_sum_upper n d (lam w : nat -> F) (p : F) :
+    (d <= n)%nat ->
+    (forall t, (t < n - d)%nat -> lam t <== p) ->
+    (forall t, (n - d <= t)%nat -> (t < n)%nat -> p <== lam t) ->
+    (forall t, (t < n)%nat -> 0 <== w t) ->
+    (forall t, (t < n)%nat -> w t <== 1) ->
+    sumn n w = of_nat d ->
+    sumn n (fun t => lam t * w t) <== sumn d (fun c => lam (n - d + c)%nat).
   Proof.
-    unfold quad, trace, mmul, mtrans. apply sumn_ext. intros c _.
-    rewrite sumn_swap. apply sumn_ext. intros j _.
-    rewrite <- sumn_mul_r. apply sumn_ext. intros i _. ring.
+    intros Hd Hlo Hhi Hw0 Hw1 Hsum.
+    assert (Hnd : (n - d <= n)%nat) by lia.
+    pose proof (weighted_sum_lower n (n - d) lam (fun t => 1 - w t) p Hnd Hlo Hhi) as H.
+    assert (Hs : sumn n (fun t => 1 - w t) = of_nat (n - d)).
+    { rewrite sumn_sub, sumn_const, Hsum.
+      replace n with ((n - d) + d)%nat at 1 by lia. rewrite of_nat_add. ring. }
+    specialize (H (fun t Ht => fle_sub_nonneg _ _ (Hw1 t Ht))).
+    assert (H1 : forall t, (t < n)%nat -> 1 - w t <== 1).
+    { intros t Ht. apply fle_of_sub_nonneg. replace (1 - (1 - w t)) with (w t) by ring.
+      apply Hw0. exact Ht. }
+    specialize (H H1 Hs).
+    (* total = first (n-d) + last d *)
+    assert (Hsplit : sumn n lam = sumn (n - d) lam + sumn d (fun c => lam (n - d + c)%nat)).
+    { replace n with ((n - d) + d)%nat at 1 by lia. apply sumn_split. }
+    apply fle_of_sub_nonneg. apply fle_sub_nonneg in H.
+    replace (sumn d (fun c => lam (n - d + c)%nat) - sumn n (fun t => lam t * w t))
+      with (sumn n (fun t => lam t * (1 - w t)) - sumn (n - d) lam); [exact H|].
+    rewrite (sumn_ext n (fun t => lam t * (1 - w t)) (fun t => lam t - lam t * w t)) by (intros; ring).
+    rewrite sumn_sub, Hsplit. ring.
   Qed.
 
-  Definition coef (n : nat) (V Y : mat) (t c : nat) : F := sumn n (fun i => V i t * Y i c).
-  Definition weight (n d : nat) (V Y : mat) (t : nat) : F :=
-    sumn d (fun c => coef n V Y t c * coef n V Y t c).
+  (* ---------------- trace of Q^T M Q through the eigenbasis ---------------- *)
+  (* Q is n x d (Q i c); V is n x n, column t = eigenvector t *)
+  Definition quad (n d : nat) (M Q : mat F) : F :=
+    sumn d (fun c => sumn n (fun i => sumn n (fun j => Q i c * M i j * Q j c))).
 
-  Definition eig_form (n : nat) (V : mat) (lam : vec) : mat :=
+  Definition coef (n : nat) (V Q : mat F) (t c : nat) : F := sumn n (fun i => V i t * Q i c).
+  Definition weight (n d : nat) (V Q : mat F) (t : nat) : F :=
+    sumn d (fun c => coef n V Q t c * coef n V Q t c).
+
+  Definition eig_form (n : nat) (V : mat F) (lam : vec F) : mat F :=
     fun i j => sumn n (fun t => V i t * lam t * V j t).
 
-  Lemma eig_form_is_product n V lam i j :
-    i < n -> j < n -> eig_form n V lam i j = mmul n (mmul n V (mdiag lam)) (mtrans V) i j.
+  (* M V = V diag lam and V V^T = I give M = V diag lam V^T *)
+  Lemma spectral_form n (M V : mat F) (lam : vec F) :
+    meq n n (mmul n V (mtrans V)) mI ->
+    meq n n (mmul n M V) (mmul n V (mdiag lam)) ->
+    meq n n M (eig_form n V lam).
   Proof.
-    intros Hi Hj. unfold eig_form, mmul at 1, mtrans. apply sumn_ext. intros t Ht.
-    rewrite mmul_diag_r by exact Ht. ring.
+    intros HVVt HMV i j Hi Hj.
+    transitivity (mmul n M (mmul n V (mtrans V)) i j).
+    { unfold mmul at 1. rewrite (sumn_ext n _ (fun s => M i s * mI s j)).
+      - unfold mI. rewrite sumn_delta_r by assumption. reflexivity.
+      - intros s Hs. rewrite (HVVt s j Hs Hj). reflexivity. }
+    rewrite <- mmul_assoc. unfold mmul at 1, eig_form. apply sumn_ext. intros t Ht.
+    rewrite (HMV i t Hi Ht). rewrite mmul_diag_r by assumption. unfold mtrans. ring.
   Qed.
 
-  Lemma quad_eig n d V lam Y M :
+  Lemma quad_eig n d (V : mat F) (lam : vec F) (Q M : mat F) :
     meq n n M (eig_form n V lam) ->
-    quad n d M Y = sumn n (fun t => lam t * weight n d V Y t).
+    quad n d M Q = sumn n (fun t => lam t * weight n d V Q t).
   Proof.
     intros HM. unfold quad, weight.
-    transitivity (sumn d (fun c => sumn n (fun t => lam t * (coef n V Y t c * coef n V Y t c)))).
-    - apply sumn_ext. intros c _.
-      transitivity (sumn n (fun i => sumn n (fun j => sumn n (fun t =>
-                      lam t * ((V i t * Y i c) * (V j t * Y j c)))))).
-      { apply sumn_ext. intros i Hi. apply sumn_ext. intros j Hj.
-        rewrite (HM i j Hi Hj). unfold eig_form.
-        rewrite <- sumn_mul_l, <- sumn_mul_r. apply sumn_ext. intros t _. ring. }
-      transitivity (sumn n (fun t => sumn n (fun i => sumn n (fun j =>
-                      lam t * ((V i t * Y i c) * (V j t * Y j c)))))).
-      { rewrite sumn_swap. apply sumn_ext. intros i _...
+    rewrite (sumn_ext n (fun t => lam t * sumn d _)
+               (fun t => sumn d (fun c => lam t * (coef n V Q t c * coef n V Q t c))))
+      by (intros; rewrite sumn_mul_l; reflexivity).
+    rewrite (sumn_swap n d). apply sumn_ext. intros c _.
+    transitivity (sumn n (fun i => sumn n (fun j => sumn n (fun t =>
+                    lam t * ((V i t * Q i c) * (V j t * Q j c)))))).
+    { apply sumn_ext. intros i Hi. apply sumn_ext. intros j Hj.
+      rewrite (HM i j Hi Hj). unfold eig_form.
+      rewrite <- sumn_mul_l, <- sumn_mul_r. apply sumn_ext. intros t _. ring. }
+    (* move the t-sum outside *)
+    rewrite (sumn_ext n _ (fun i => sumn n (fun t => sumn n (fun j =>
+                    lam t * ((V i t * Q i c) * (V j t * Q j c))))))
+      by (intros; apply sumn_swap).
+    rewrite sumn_swap. apply sumn_ext. intros t _. unfold coef.
+    rewrite sumn_mul_sumn, <- sumn_mul_l. apply sumn_ext. intros i _.
+    rewrite <- sumn_mul_l. apply sumn_ext. intros j _. ring.
+  Qed.
+
+  Lemma weight_nonneg n d (V Q : mat F) t : 0 <== weight n d V Q t.
+  Proof. unfold weight. apply sumn_nonneg. intros c _. apply fle_sq. Qed.
+
+  (* sum_t w_t = d  (needs V V^T = I and Q^T Q = I) *)
+  Lemma weight_sum n d (V Q : mat F) :
+    meq n n (mmul n V (mtrans V)) mI ->
+    meq d d (mmul n (mtrans Q) Q) mI ->
+    sumn n (weight n d V Q) = of_nat d.
+  Proof.
+    intros HVVt HQ. unfold weight. rewrite sumn_swap.
+    rewrite (sumn_ext d _ (fun _ => 1)); [rewrite sumn_const; ring|].
+    intros c Hc. unfold coef.
+    rewrite (sumn_ext n _ (fun t => sumn n (fun i => sumn n (fun j =>
+               (Q i c * Q j c) * (V i t * V j t)))))
+      by (intros t _; rewrite sumn_mul_sumn; apply sumn_ext; intros i _;
+          apply sumn_ext; intros j _; ring).
+    rewrite sumn_swap.
+    rewrite (sumn_ext n _ (fun i => sumn n (fun j => (Q i c * Q j c) * mI i j))).
+    2:{ intros i Hi. rewrite sumn_swap. apply sumn_ext. intros j Hj.
+        rewrite sumn_mul_l. f_equal. specialize (HVVt i j Hi Hj). unfold mmul, mtrans in HVVt.
+        exact HVVt. }
+    rewrite (sumn_ext n _ (fun i => Q i c * Q i c)).
+    2:{ intros i Hi. unfold mI. rewrite (sumn_ext n _ (fun j => (Q i c * Q j c) * delta j i))
+          by (intros; rewrite delta_sym; reflexivity).
+        rewrite sumn_delta_r by assumption. reflexivity. }
+    specialize (HQ c c Hc Hc). unfold mmul, mtrans, mI in HQ. rewrite delta_eq in HQ. exact HQ.
+  Qed.
+
+  (* Bessel: w_t <= 1  (needs V^T V = I for |v_t| = 1 and Q^T Q = I) *)
+  Lemma weight_le_one n d (V Q : mat F) t :
+    (t < n)%nat ->
+    meq n n (mmul n (mtrans V) V) mI ->
+    meq d d (mmul n (mtrans Q) Q) mI ->
+    weight n d V Q t <== 1.
+  Proof.
+    intros Ht HVtV HQ.
+    set (a := fun c => coef n V Q t c).
+    set (r := fun i => V i t - sumn d (fun c => a c * Q i c)).
+    assert (Hr : sumn n (fun i => r i * r i) = 1 - weight n d V Q t).
+    { unfold r.
+      rewrite (sumn_ext n _ (fun i => V i t * V i t
+                 - (1 + 1) * sumn d (fun c => a c * (V i t * Q i c))
+                 + sumn d (fun c => sumn d (fun c' => (a c * a c') * (Q i c * Q i c'))))).
+      2:{ intros i _.
+          rewrite (sumn_ext d (fun c => a c * (V i t * Q i c)) (fun c => V i t * (a c * Q i c)))
+            by (intros; ring).
+          rewrite sumn_mul_l.
+          rewrite (sumn_ext d (fun c => sumn d (fun c' => a c * a c' * (Q i c * Q i c')))
+                     (fun c => sumn d (fun c' => a c * Q i c * (a c' * Q i c')))).
+          2:{ intros c _. apply sumn_ext. intros c' _. ring. }
+          rewrite <- sumn_mul_sumn. ring. }
+      rewrite sumn_add, sumn_sub, sumn_mul_l.
+      (* |v_t|^2 = 1 *)
+      assert (E1 : sumn n (fun i => V i t * V i t) = 1).
+      { specialize (HVtV t t Ht Ht). unfold mmul, mtrans, mI in HVtV. rewrite delta_eq in HVtV.
+        exact HVtV. }
+      (* cross term = w_t *)
+      assert (E2 : sumn n (fun i => sumn d (fun c => a c * (V i t * Q i c))) = weight n d V Q t).
+      { rewrite sumn_swap. unfold weight. apply sumn_ext. intros c _.
+        rewrite sumn_mul_l. reflexivity. }
+      (* quadratic term = w_t *)
+      assert (E3 : sumn n (fun i => sumn d (fun c => sumn d (fun c' =>
+                      (a c * a c') * (Q i c * Q i c')))) = weight n d V Q t).
+      { rewrite sumn_swap. unfold weight. apply sumn_ext. intros c Hc.
+        rewrite sumn_swap.
+        rewrite (sumn_ext d _ (fun c' => (a c * a c') * mI c c')).
+        2:{ intros c' Hc'. rewrite sumn_mul_l. f_equal.
+            specialize (HQ c c' Hc Hc'). unfold mmul, mtrans in HQ. exact HQ. }
+        unfold mI. rewrite (sumn_ext d _ (fun c' => (a c * a c') * delta c' c))
+          by (intros; rewrite delta_sym; reflexivity).
+        rewrite sumn_delta_r by assumption. reflexivity. }
+      rewrite E1, E2, E3. ring. }
+    apply fle_of_sub_nonneg. rewrite <- Hr. apply sumn_nonneg. intros i _. apply fle_sq.
+  Qed.
+
+  Definition ascending (n : nat) (lam : vec F) : Prop :=
+    forall a b, (a <= b)%nat -> (b < n)%nat -> lam a <== lam b.
+
+  (* ---------------- Ky Fan ---------------- *)
+  Theorem ky_fan_max n d (M V Q : mat F) (lam : vec F) :
+    (d <= n)%nat ->
+    meq n n (mmul n (mtrans V) V) mI ->
+    meq n n (mmul n V (mtrans V)) mI ->
+    meq n n (mmul n M V) (mmul n V (mdiag lam)) ->
+    ascending n lam ->
+    meq d d (mmul n (mtrans Q) Q) mI ->
+    quad n d M Q <== sumn d (fun c => lam (n - d + c)%nat).
+  Proof.
+    intros Hd HVtV HVVt HMV Hasc HQ.
+    rewrite (quad_eig n d V lam Q M (spectral_form n M V lam HVVt HMV)).
+    destruct d as [|d'].
+    { cbn [sumn]. apply fle_eq. apply sumn_zero'. intros t _. unfold weight. cbn [sumn]. ring. }
+    apply (weighted_sum_upper n (S d') lam (weight n (S d') V Q) (lam (n - S d')%nat) Hd).
+    - intros t Ht. apply Hasc; lia.
+    - intros t H1 H2. apply Hasc; lia.
+    - intros t _. apply weight_nonneg.
+    - intros t Ht. apply weight_le_one; assumption.
+    - apply weight_sum; assumption.
+  Qed.
+
+  Theorem ky_fan_min n d (M V Q : mat F) (lam : vec F) :
+    (d <= n)%nat ->
+    meq n n (mmul n (mtrans V) V) mI ->
+    meq n n (mmul n V (mtrans V)) mI ->
+    meq n n (mmul n M V) (mmul n V (mdiag lam)) ->
+    ascending n lam ->
+    meq d d (mmul n (mtrans Q) Q) mI ->
+    sumn d lam <== quad n d M Q.
+  Proof.
+    intros Hd HVtV HVVt HMV Hasc HQ.
+    rewrite (quad_eig n d V lam Q M (spectral_form n M V lam HVVt HMV)).
+    destruct (Nat.eq_dec d n) as [->|Hne].
+    { destruct n as [|n']; [cbn [sumn]; apply fle_refl|].
+      apply (weighted_sum_lower (S n') (S n') lam (weight (S n') (S n') V Q) (lam n') (le_n _)).
+      - intros t Ht. apply Hasc; lia.
+      - intros t H1 H2. lia.
+      - intros t _. apply weight_nonneg.
+      - intros t Ht. apply weight_le_one; assumption.
+      - apply weight_sum; assumption. }
+    apply (weighted_sum_lower n d lam (weight n d V Q) (lam d) Hd).
+    - intros t Ht. apply Hasc; lia.
+    - intros t H1 H2. apply Hasc; lia.
+    - intros t _. apply weight_nonneg.
+    - intros t Ht. apply weight_le_one; assumption.
+    - apply weight_sum; assumption.
+  Qed.
+
+  (* the bound is attained by the eigenvector columns themselves: off .. off+d-1 *)
+  Theorem ky_fan_attained n d off (M V : mat F) (lam : vec F) :
+    (off + d <= n)%nat ->
+    meq n n (mmul n (mtrans V) V) mI ->
+    meq n n (mmul n M V) (mmul n V (mdiag lam)) ->
+    quad n d M (fun i c => V i (off + c)%nat) = sumn d (fun c => lam (off + c)%nat).
+  Proof.
+    intros Hle HVtV HMV. unfold quad. apply sumn_ext. intros c Hc.
+    rewrite (sumn_ext n _ (fun i => V i (off + c)%nat * (lam (off + c)%nat * V i (off + c)%nat))).
+    2:{ intros i Hi.
+        rewrite (sumn_ext n _ (fun j => V i (off + c)%nat * (M i j * V j (off + c)%nat)))
+          by (intros; ring).
+        rewrite sumn_mul_l. f_equal.
+        assert (Hoc : (off + c < n)%nat) by lia.
+        pose proof (HMV i (off + c)%nat Hi Hoc) as E. unfold mmul at 1 in E. rewrite E.
+        rewrite mmul_diag_r by assumption. ring. }
+    rewrite (sumn_ext n _ (fun i => lam (off + c)%nat * (mtrans V (off + c)%nat i * V i (off + c)%nat)))
+      by (intros; unfold mtrans; ring).
+    rewrite sumn_mul_l.
+    assert (Hoc : (off + c < n)%nat) by lia.
+    pose proof (HVtV (off + c)%nat (off + c)%nat Hoc Hoc) as E.
+    unfold mmul in E. rewrite E. unfold mI. rewrite delta_eq. ring.
+  Qed.
+
+End KyFan.
+
+(* ---------------- the Qc instance ---------------- *)
+From Coq Require Import ZArith QArith Qcanon Lqa.
+From TK Require Import Mat_Qc.
+
+Lemma Qc_sq_nonneg (x : Qc) : (Q2Qc 0 <= x * x)%Qc.
+Proof.
+  unfold Qcle. cbn [this Q2Qc Qcmult]. rewrite !Qred_correct.
+  destruct x as [q Hq]. cbn [this]. nra.
+Qed.
+
+Lemma Qc_mul_nonneg (x y : Qc) : (Q2Qc 0 <= x)%Qc -> (Q2Qc 0 <= y)%Qc -> (Q2Qc 0 <= x * y)%Qc.
+Proof.
+  unfold Qcle. cbn [this Q2Qc Qcmult]. rewrite !Qred_correct.
+  destruct x as [p Hp], y as [q Hq]. cbn [this]. intros H1 H2. nra.
+Qed.
+
+Global Instance QcOrdered : @OrderedField Qc QcOps := {|
+  fle := Qcle;
+  fle_refl := Qcle_refl;
+  fle_trans := Qcle_trans;
+  fle_add_r := fun x y z H => Qcplus_le_compat x y z z H (Qcle_refl z);
+  fle_mul_nonneg := Qc_mul_nonneg;
+  fle_sq := Qc_sq_nonneg
+|}.
